@@ -450,7 +450,7 @@ func partC(r *core.Run, col *collector, sp *sampler, ordBase int64) histBounds {
 		mine := newCollector()
 		// server configuration does not take part in the client-side history: the two splitting settings are
 		// both run (they are separate servers), automatic handling follows the splitting setting
-		variants := []variant{{false, false, false}, {true, true, false}}
+		variants := []variant{{split: false, auto: false}, {split: true, auto: true}}
 		for hi, vals := range it.seqs {
 			for vj, vr := range variants {
 				ok := true
